@@ -29,6 +29,7 @@ var checks = map[string]entry{
 	"C08": {"model_checking", props.C08},
 	"C09": {"model_checking", props.C09},
 	"C10": {"model_checking", props.C10},
+	"C12": {"model_checking", props.C12},
 	"C13": {"model_checking", props.C13},
 	"C14": {"model_checking", props.C14},
 	"C15": {"fault_enumeration", props.C15},
